@@ -10,3 +10,23 @@ Theorem C15_total :
     N.of_nat (length (filter (fun e => match ev_op e with Get _ => true | _ => false end) h)).
 Proof. exact c15_total. Qed.
 Print Assumptions C15_total.
+
+(* registry half: statistics are found under the cache's name; reset touches only that cache *)
+From CL Require Import PfRegistry.
+Theorem C15_stats_by_name :
+  forall n w h m,
+    stats_get n w = Some (h, m) ->
+    exists e, In e w /\ cond_matches n e = true /\ h = st_hits (ce_st e) /\ m = st_misses (ce_st e).
+Proof. exact stats_get_spec. Qed.
+Print Assumptions C15_stats_by_name.
+Theorem C15_reset_touches_one_cache :
+  forall n w w' b,
+    stats_reset n w = (w', b) ->
+    forall j e, nth_error w j = Some e ->
+      (cond_matches n e = false -> nth_error w' j = Some e) /\
+      (cond_matches n e = true ->
+       exists e', nth_error w' j = Some e' /\
+         st_store (ce_st e') = st_store (ce_st e) /\ st_queue (ce_st e') = st_queue (ce_st e) /\
+         st_hits (ce_st e') = 0 /\ st_misses (ce_st e') = 0 /\ e' = set_st e (ce_st e')).
+Proof. exact stats_reset_frame. Qed.
+Print Assumptions C15_reset_touches_one_cache.
